@@ -248,6 +248,84 @@ def random_chain(rng, n_ops, prep=False):
     return {"table": table, "ops": hist, "nd": nd}
 
 
+A_LK, A_DK = 53, 54      # List[K1], Dict[str, K1] with K1 keyed by attribute 2
+
+
+def keyed_table(prep_item=None, key_default=False):
+    """K1 keyed spec class; K2 with a list and a dict of K1, optionally with an item preparer"""
+    k1 = {"id": 1, "eager": True, "frozen": False, "key": 2, "attrs": [
+        {"aid": 2, "ty": STR, "default": S(7) if key_default else None, "decl": "plain"},
+        {"aid": 1, "ty": INT, "default": V(0), "decl": "plain"}]}
+    k2 = {"id": 2, "eager": False, "frozen": False, "attrs": [
+        {"aid": A_LK, "ty": ("list", ("spec", 1)), "default": None, "factory": None, "decl": "Attr",
+         "prepare_item": prep_item},
+        {"aid": A_DK, "ty": ("dict", STR, ("spec", 1)), "default": None, "factory": None, "decl": "Attr",
+         "prepare_item": prep_item},
+    ]}
+    return [k1, k2]
+
+
+def keyed_elements(tier, rng):
+    """bare keys promoted to keyed elements (with and without keywords, _index, _insert, on a
+    missing / empty / one-element container), with and without an item preparer on the attribute"""
+    cases = []
+    kw = [(1, V(1))]
+    list_calls = [
+        ("with_item", A_LK, H([S(10)])),
+        ("with_item", A_LK, H([S(10)], kw=kw)),
+        ("with_item", A_LK, H([], kw=[(2, S(11)), (1, V(2))])),
+        ("with_item", A_LK, H([S(10)], index=V(0), insert=True)),
+        ("with_item", A_LK, H([S(10)], index=V(0))),
+        ("with_item", A_LK, H([S(10)], index=V(-1), kw=kw)),
+        ("update_item", A_LK, H([V(0), S(11)])),
+        ("update_item", A_LK, H([V(0), S(11)], kw=kw)),
+        ("update_item", A_LK, H([V(0)], kw=kw)),
+        ("update_item", A_LK, H([V(-1), S(11)], by_index=True)),
+        ("without_item", A_LK, H([V(0)])),
+    ]
+    dict_calls = [
+        ("with_item", A_DK, H([S(7), S(10)])),
+        ("with_item", A_DK, H([S(7), S(10)], kw=kw)),
+        ("with_item", A_DK, H([S(8)], kw=[(2, S(11))])),
+        ("update_item", A_DK, H([S(7), S(11)])),
+        ("update_item", A_DK, H([S(7), S(11)], kw=kw)),
+        ("update_item", A_DK, H([S(7)], kw=kw)),
+        ("without_item", A_DK, H([S(7)])),
+    ]
+    for prep in (None, ("id",)):
+        for key_default in (False, True):
+            table = keyed_table(prep, key_default)
+            _, heap0 = ic.resolve_table(table)
+            nd = len(heap0)
+            for aid, calls in ((A_LK, list_calls), (A_DK, dict_calls)):
+                for content in ("missing", "empty", "one"):
+                    hist, n = [], nd
+                    if content == "missing":
+                        hist.append((("construct", 2, None, []), None))
+                        n += 1
+                    else:
+                        elems = []
+                        if content == "one":
+                            hist.append((("construct", 1, S(7), [(1, V(5))]), None))
+                            elems = [("root", n)]
+                            n += 1
+                        obj = ("list", elems) if aid == A_LK else ("dict", [(S(7), e) for e in elems])
+                        hist.append((("alloc", obj), None))
+                        hist.append((("construct", 2, None, [(aid, ("root", n))]), None))
+                        n += 2
+                    recv = n - 1
+                    for j, (kind, a, h) in enumerate(calls):
+                        hist.append((("helper", recv, (kind, a), dict(h)), None))
+                        n += 1
+                        if j % 2 == 0:
+                            hist.append((("deepcopy", recv), None))
+                            n += 1
+                            hist.append((("helper", n - 1, (kind, a), dict(h, inplace=True)), None))
+                            n += 1
+                    cases.append({"table": table, "ops": hist, "nd": nd})
+    return cases
+
+
 def spec_elements(rng, n_ops):
     """element helpers on List/Dict of (keyed) spec classes: keywords build/update the
     element, bare keys are promoted, dicts are constructor arguments (conforming arguments)"""
